@@ -61,9 +61,9 @@ func (l *limitReadCloser) Read(p []byte) (n int, err error) {
 		if l.N == -1 {
 			n--
 		}
-		if err == nil {
-			err = ErrStreamTooLarge
-		}
+		// The stream is too large even if the source reported EOF (or any other
+		// condition) together with the byte that exceeded the limit
+		err = ErrStreamTooLarge
 		if !l.closed {
 			l.closed = true
 			l.R.Close()
